@@ -3,7 +3,7 @@ import re
 from sa import names as N
 from sa.prog import Site, Slice, TERM, callee_of, op_local, op_const
 from sa.rules.common import is_test_or_bench
-from sa.rules.http_common import routes, handler_fns, const_str
+from sa.rules.http_common import routes, handler_fns, const_str, join_mappers
 
 EXPLANATION = ("Decides the structural part: every registered handler (and the fallbacks) returns Result<_, HttpError> or a type "
                "that is a response by construction; HttpError's IntoResponse builds the {error:{type,reason}} envelope with the "
@@ -94,26 +94,45 @@ def r24b(ctx, P, rts):
                 if cal not in HEAVY:
                     continue
                 n += 1
-                # f must be a closure constructed as the argument of spawn_blocking in its parent
-                inside = False
-                par = P.fn(f.parent) if f.parent else None
-                if f.kind == "closure" and par is not None:
-                    sl = Slice(par, through_all_calls=True)
-                    for pb, pt in par.calls():
-                        if callee_of(pt) == "tokio::task::blocking::spawn_blocking":
-                            for a in pt["args"]:
-                                if any(y[0] == "agg" and y[3].get("closure") == f.path for y in sl.sources(a)):
-                                    inside = True
+                # f must run inside a closure that is passed to spawn_blocking: it is that closure, a closure nested in it, or a
+                # helper function all of whose callers (within this handler's code) run inside one
+                memo_in = {}
+
+                def runs_blocking(g, depth=0):
+                    if g.path in memo_in:
+                        return memo_in[g.path]
+                    memo_in[g.path] = (False, None)
+                    res = (False, None)
+                    par_ = P.fn(g.parent) if g.parent else None
+                    if g.kind == "closure" and par_ is not None:
+                        sl_ = Slice(par_, through_all_calls=True)
+                        for pb, pt in par_.calls():
+                            if callee_of(pt) == "tokio::task::blocking::spawn_blocking":
+                                for a in pt["args"]:
+                                    if any(y[0] == "agg" and y[3].get("closure") == g.path for y in sl_.sources(a)):
+                                        res = (True, par_)
+                        if not res[0] and depth < 6:
+                            res = runs_blocking(par_, depth + 1)
+                    elif g.kind != "closure" and depth < 6:
+                        callers = [c_ for c_ in fns if any(callee_of(t_) == g.path for b_, t_ in c_.calls())]
+                        if callers and all(runs_blocking(c_, depth + 1)[0] for c_ in callers):
+                            res = (True, runs_blocking(callers[0], depth + 1)[1])
+                    memo_in[g.path] = res
+                    return res
+                inside, par = runs_blocking(f)
                 # join error mapped
                 mapped = False
                 if inside:
+                    mappers = join_mappers(P)
                     for g in fns:
-                        if g.path.startswith(par.path + "::{closure") or g is par:
-                            for gb, gt in g.calls():
-                                if callee_of(gt) == HTTPERR + "::from_anyhow":
-                                    k = const_str(op_const(gt["args"][0]))
-                                    if k and k.endswith("_join") and status_of(op_const(gt["args"][1])) == 500:
-                                        mapped = True
+                        for gb, gt in g.calls():
+                            mp = mappers.get(callee_of(gt))
+                            if mp is None or len(gt["args"]) <= mp[0]:
+                                continue
+                            k = const_str(op_const(gt["args"][mp[0]]))
+                            st_ok = mp[1] == 500 or status_of(op_const(gt["args"][1])) == 500
+                            if k and k.endswith("_join") and st_ok:
+                                mapped = True
                 hname = h.split("::")[-1]
                 if not inside and hname in LIGHT_EXCEPTIONS:
                     ctx.ob(rid, "%s:%s:%s:listed" % (rid, path, cal.rsplit("::", 1)[1]), True,
